@@ -100,6 +100,8 @@ def check(ctx):
                         best = f
         return best
 
+    active = set()
+
     def flow(node, path, idx=(), depth=0):
         """Positions (file, line, col) of subscript bases the value of expression `node` reaches, or None if it escapes.
         `idx` is the position of the value inside nested displays that `node` denotes (() = node is the value itself)."""
@@ -194,7 +196,13 @@ def check(ctx):
             k = par.args.index(node) + (0 if g.is_static else 1)
             if k >= len(g.params):
                 return None
-            return follow(g.params[k], g.node.body, None, (), g.file)
+            if (g.qual, k) in active:
+                return []            # handed on to the routine it came in by (a retry that calls itself): the uses are already counted
+            active.add((g.qual, k))
+            try:
+                return follow(g.params[k], g.node.body, None, (), g.file)
+            finally:
+                active.discard((g.qual, k))
         return None
 
     for key, node in sorted(sites.items()):
